@@ -77,14 +77,19 @@ def h_expect_poly(env, N, r, kind, T=2):
         cs = _coef_array(env, [(cr[k] - 3, ci[k] - 3) for k in range(T)])
         obj = M.pa.PauliPolynomial(g.copy(), p.copy()).set_cs(cs)
         terms = [(g[k], p[k], (cr[k] - 3, ci[k] - 3)) for k in range(T)]
-    res = env.run(lambda: state.expect(obj))
-    env.goal('no_exception', b_not(res.raised))
-    if res.value is not None:
-        vr, vi = parts(res.value)
-        er, ei = _weighted(gs, ps, r, N, terms)
-        env.goal('real_part', eq(vr, er))
-        env.goal('imaginary_part', eq(vi, ei))
+    er, ei = _weighted(gs, ps, r, N, terms)
+    for rnd in ('', 'second_evaluation_'):       # the same observable object evaluated twice
+        res = env.run(lambda: state.expect(obj))
+        env.goal(rnd + 'no_exception', b_not(res.raised))
+        if res.value is not None:
+            vr, vi = parts(res.value)
+            env.goal(rnd + 'real_part', eq(vr, er))
+            env.goal(rnd + 'imaginary_part', eq(vi, ei))
     env.goal('state_unchanged', AND([arr_eq(state.gs, gs), arr_eq(state.ps, ps), eq(state.r, r)]))
+    if kind == 'poly':
+        env.goal('observable_unchanged', AND([arr_eq(obj.gs, g), arr_eq(obj.ps, p)] + [b_and(eq(parts(obj.cs[k])[0], cr[k] - 3), eq(parts(obj.cs[k])[1], ci[k] - 3)) for k in range(T)]))
+    elif kind == 'pauli':
+        env.goal('observable_unchanged', b_and(arr_eq(obj.g, g[0]), eq(obj.p, p[0])))
 
 
 def _coef(env, re, im):
